@@ -157,6 +157,10 @@ class Interp:
         self.asked = []               # atoms consulted in this run (order)
         self.fcount = {}
         self.layer_self = None
+        self.class_attrs = {}         # (class qname, attr) -> value stored at run time
+        self.defaulted = set()
+        self.pure_depth = 0           # >0 while executing code of non-layer classes (entities, attributes, converter)
+        self.layer_base = None
 
     # ------------------------------------------------------------------ atoms
     def ask(self, atom):
@@ -185,6 +189,11 @@ class Interp:
                     raise DomainGrew()
 
     def free(self, text):
+        if self.pure_depth > 0:
+            # undecidable test inside entity / attribute code (no routing effects there): a fixed default,
+            # recorded; truthiness defaults to True (optional fields present), comparisons to False
+            self.defaulted.add(text)
+            return text.startswith(("truth(", "nonempty("))
         n = self.fcount.get(text, 0)
         self.fcount[text] = n + 1
         key = text if n == 0 else "%s #%d" % (text, n + 1)
@@ -205,9 +214,35 @@ class Interp:
             self._eff_stack[-1].pop()
 
     # ------------------------------------------------------------------ resolving lazy values
+    def force(self, v, deref=False):
+        """resolve a lazily referenced child of the symbolic input: ('lazychild', Node, tag) -> node / None.
+        deref=True: the child is being dereferenced (method call / attribute / index) rather than tested;
+        inside entity code an untested dereference means the documented shape requires the child."""
+        if v[0] == "lazy":
+            return self.force(v[1](self), deref)
+        if v[0] == "lazychild":
+            n, tag = v[1], v[2]
+            if deref and self.pure_depth > 0 and ("C", n.path, tag) not in self.cell:
+                present = True
+            else:
+                present = self.ask(("C", n.path, tag))
+            if not present:
+                return C_NONE
+            if tag not in n.sym_children:
+                n.sym_children[tag] = Node(("c", tag), n.path + (tag,))
+            return ("node", n.sym_children[tag])
+        return v
+
     def concrete(self, v):
         """('atom', a) -> ('c', value) / ('other', a) using the cell"""
+        if v[0] in ("lazychild", "lazy"):
+            v = self.force(v)
         if v[0] == "atom":
+            a = v[1]
+            if self.pure_depth > 0 and a[0] in ("A", "E") and a not in self.cell and not self.domains.get(a):
+                # value-only attribute (never compared with a constant) read inside entity code:
+                # the documented shape has it; its absence is not explored for routing
+                return ("other", a)
             x = self.ask(v[1])
             if x == OTHER:
                 return ("other", v[1])
@@ -219,7 +254,7 @@ class Interp:
         k = v[0]
         if k == "c":
             return bool(v[1])
-        if k in ("other", "node", "obj", "cls", "closure", "bound", "ext"):
+        if k in ("other", "node", "obj", "cls", "closure", "bound", "ext", "clsmethod"):
             return True
         if k == "list":
             if v[1] or (len(v) > 2 and v[2]):
@@ -236,6 +271,8 @@ class Interp:
         if b[0] == "atom" and a[0] == "c":
             self.note_const(b[1], a[1])
         a, b = self.concrete(a), self.concrete(b)
+        if a[0] == "other" and b[0] == "other" and a[1] == b[1]:
+            return True
         if a[0] == "c" and b[0] == "c":
             return a[1] == b[1] and type(a[1]) is type(b[1]) or (a[1] == b[1] and isinstance(a[1], (int, float)) and isinstance(b[1], (int, float)))
         if (a[0] == "other" and b[0] == "c") or (b[0] == "other" and a[0] == "c"):
@@ -250,6 +287,10 @@ class Interp:
             return a[1] is b[1]
         if a[0] == "obj" and b[0] == "obj":
             return a[1] is b[1]
+        if a[0] == "ext" and b[0] == "ext" and not a[2] and not b[2]:
+            return a[1] == b[1]
+        if (a[0] == "ext" and not a[2] and b[0] == "cls") or (b[0] == "ext" and not b[2] and a[0] == "cls"):
+            return False
         return self.free("eq(%s)" % text)
 
     # ------------------------------------------------------------------ running functions
@@ -294,13 +335,20 @@ class Interp:
             env[a.kwarg.arg] = ("dict", extra)
         if a.vararg and a.vararg.arg not in env:
             env[a.vararg.arg] = ("list", [])
-        if isinstance(fn, ast.Lambda):
-            return self.expr(fn.body, env, depth + 1)
+        pure = owner is not None and self.layer_base is not None and self.layer_base not in self.repo.mro(owner)
+        if pure:
+            self.pure_depth += 1
         try:
-            self.block(fn.body, env, depth + 1)
-        except _Return as r:
-            return r.v
-        return C_NONE
+            if isinstance(fn, ast.Lambda):
+                return self.expr(fn.body, env, depth + 1)
+            try:
+                self.block(fn.body, env, depth + 1)
+            except _Return as r:
+                return r.v
+            return C_NONE
+        finally:
+            if pure:
+                self.pure_depth -= 1
 
     def block(self, stmts, env, depth):
         for s in stmts:
@@ -413,8 +461,23 @@ class Interp:
                 self.block(s.finalbody, env, depth)
 
     def for_loop(self, s, env, depth):
-        it = self.expr(s.iter, env, depth)
+        it = self.force(self.expr(s.iter, env, depth))
         items = self.iterate(it)
+        if items is None and it[0] == "list" and it[1]:
+            # open list: its known elements stand for all of them; effects count as repeated
+            self.push_loop()
+            try:
+                for x in it[1]:
+                    self.assign(s.target, x, env, depth)
+                    try:
+                        self.block(s.body, env, depth)
+                    except _Break:
+                        break
+                    except _Continue:
+                        continue
+            finally:
+                self.pop_loop()
+            return
         if items is not None:
             for x in items:
                 self.assign(s.target, x, env, depth)
@@ -477,7 +540,7 @@ class Interp:
             b = self.expr(t.value, env, depth)
             self.set_attr(b, t.attr, v, env, depth, t)
         elif isinstance(t, ast.Subscript):
-            b = self.expr(t.value, env, depth)
+            b = self.force(self.expr(t.value, env, depth))
             k = self.expr(t.slice, env, depth) if not isinstance(t.slice, ast.Slice) else ("unk", "slice")
             kc = k if k[0] == "c" else None
             if b[0] == "node":
@@ -501,6 +564,7 @@ class Interp:
                     self.call_function(m, k2, b, [k, v], {}, depth=depth + 1)
 
     def set_attr(self, b, name, v, env, depth, node=None):
+        b = self.force(b)
         if b[0] == "obj":
             o = b[1]
             owner = env.get("@owner")
@@ -529,6 +593,7 @@ class Interp:
                 if v[0] == "list":
                     n.children = [("one", x[1]) if x[0] == "node" else ("many", x) for x in v[1]]
         elif b[0] == "cls":
+            self.class_attrs[(b[1].qname, name)] = v
             return
         # stores on opaque values are ignored
 
@@ -707,6 +772,8 @@ class Interp:
                     return ("c", f(l[1], r[1]))
             except Exception:
                 pass
+        if isinstance(op, ast.Mult) and l[0] == "list" and r[0] == "c" and isinstance(r[1], int) and 0 <= r[1] < 64 and not (len(l) > 2 and l[2]):
+            return ("list", list(l[1]) * r[1])
         if isinstance(op, ast.Add) and l[0] == "list" and r[0] == "list":
             return ("list", l[1] + r[1], (len(l) > 2 and l[2]) or (len(r) > 2 and r[2])) if (len(l) > 2 and l[2]) or (len(r) > 2 and r[2]) else ("list", l[1] + r[1])
         if isinstance(op, ast.Mod) and r[0] == "list":
@@ -759,7 +826,15 @@ class Interp:
                         self.note_const(item[1], x[1])
             return any(self.equal(item, x, text) for x in container[1])
         if container[0] == "dict" and not (len(container) > 2 and container[2]):
+            if not container[1]:
+                return False
+            if item[0] == "atom":
+                for kx in container[1]:
+                    if not (isinstance(kx, tuple) and kx and kx[0] == "dyn"):
+                        self.note_const(item[1], kx)
             it = self.concrete(item)
+            if it[0] == "other" and not any(isinstance(kx, tuple) and kx and kx[0] == "dyn" for kx in container[1]):
+                return False
             if it[0] == "c":
                 if any(isinstance(k, tuple) and k and k[0] == "dyn" for k in container[1]):
                     return True if (_hashable(it[1]) and it[1] in container[1]) else self.free("in(%s)" % text)
@@ -784,6 +859,7 @@ class Interp:
         return self.getitem(b, k, env, depth, e)
 
     def getitem(self, b, k, env, depth, e=None):
+        b = self.force(b, deref=True)
         if b[0] == "node":
             return self.node_attr(b[1], k)
         kc = self.concrete(k) if k[0] == "atom" and b[0] in ("dict",) else k
@@ -806,6 +882,8 @@ class Interp:
                 return self.call_function(m, k2, b, [k], {}, depth=depth + 1)
         if b[0] == "many":
             return b[1]
+        if b[0] == "c" and b[1] is None:
+            raise _Raise(("ext", "TypeError", []), "TypeError: 'NoneType' object is not subscriptable")
         return ("fn", "item", [b, k])
 
     # ------------------------------------------------------------------ nodes
@@ -841,12 +919,7 @@ class Interp:
                 return ("node", c)
         dyn = [c for kind, c in n.children if not (isinstance(c, Node) and c.tag is not None and c.tag[0] == "c")]
         if n.symbolic:
-            present = self.ask(("C", n.path, tag))
-            if not present:
-                return C_NONE
-            if tag not in n.sym_children:
-                n.sym_children[tag] = Node(("c", tag), n.path + (tag,))
-            return ("node", n.sym_children[tag])
+            return ("lazychild", n, tag)
         if dyn:
             if self.free("child %s among dynamic children" % tag):
                 c = dyn[0]
@@ -879,7 +952,7 @@ class Interp:
                 tagtxt = (t[1] if t[0] == "c" and t[1] is not None else "*")
                 key = "%s*" % tagtxt
                 if key not in n.sym_children:
-                    n.sym_children[key] = Node(("c", t[1]) if t[0] == "c" and t[1] is not None else ("fn", "tag", []), n.path + (key,))
+                    n.sym_children[key] = Node(("c", t[1]) if t[0] == "c" and t[1] is not None else ("atom", ("A", n.path + (key,), "#tag")), n.path + (key,))
                 return ("many", ("node", n.sym_children[key]))
             if args:
                 t = self.concrete(args[0])
@@ -904,7 +977,7 @@ class Interp:
                 opened = opened or kind != "one"
             return ("list", out, True) if opened else ("list", out)
         if name == "addChild":
-            c = args[0]
+            c = self.force(args[0])
             if c[0] == "node":
                 kind = "many" if len(self._eff_stack) > getattr(n, "_loopdepth", 1) else "one"
                 n.children.append((kind, c[1]))
@@ -980,6 +1053,7 @@ class Interp:
 
     # ------------------------------------------------------------------ attributes of values
     def get_attr(self, b, name, env, depth, e=None):
+        b = self.force(b, deref=True)
         k = b[0]
         if k == "obj":
             o = b[1]
@@ -1023,6 +1097,9 @@ class Interp:
             return ("bound", b, name)
         if k == "cls":
             c = b[1]
+            for kx in self.repo.mro(c):
+                if (kx.qname, name) in self.class_attrs:
+                    return self.class_attrs[(kx.qname, name)]
             kk, m = self.repo.find_method(c, name)
             if m is not None:
                 return ("clsmethod", c, name)
@@ -1033,6 +1110,9 @@ class Interp:
                 return ("c", c.name)
             return ("fn", "%s.%s" % (c.name, name), [])
         if k == "c":
+            if b[1] is None and not name.startswith("__"):
+                # attribute of None: decided when it is called or used; a plain read raises
+                return ("bound", b, name)
             return ("bound", b, name)
         if k == "atom":
             return ("bound", b, name)
@@ -1176,9 +1256,13 @@ class Interp:
         if name == "type" and len(args) == 1:
             if a0[0] == "obj":
                 return ("cls", a0[1].cls)
+            if a0[0] in ("list", "dict"):
+                return ("ext", a0[0], [])
             ac = self.concrete(a0) if a0[0] == "atom" else a0
             if ac[0] == "c":
                 return ("ext", type(ac[1]).__name__, [])
+            if ac[0] == "other":
+                return ("ext", "str", [])      # attribute values of a decoded stanza are strings
             return ("fn", "type", [a0])
         if name in ("hasattr", "getattr") and len(args) >= 2 and args[1][0] == "c":
             v = self.get_attr(a0, args[1][1], env, depth, e)
@@ -1244,6 +1328,7 @@ class Interp:
         return ov
 
     def method_call(self, recv, name, args, kwargs, env, depth, e):
+        recv = self.force(recv, deref=True)
         k = recv[0]
         if k == "node":
             return self.node_method(recv, name, args, kwargs, env, depth, e)
@@ -1261,14 +1346,26 @@ class Interp:
                 return self.call_function(m, kk, None, args, kwargs, depth=depth + 1)
             if func_is_classmethod(m):
                 return self.call_function(m, kk, ("cls", o.cls), args, kwargs, depth=depth + 1)
-            return self.call_function(m, kk, recv, args, kwargs, depth=depth + 1)
+            r = self.call_function(m, kk, recv, args, kwargs, depth=depth + 1)
+            if r[0] == "node" and not r[1].symbolic and not hasattr(r[1], "made_by"):
+                r[1].made_by = (o, name)
+            return r
         if k == "dict":
             d = recv[1]
             opened = len(recv) > 2 and recv[2]
             if name == "items":
                 return ("items", d, opened or any(isinstance(x, tuple) and x and x[0] == "dyn" for x in d))
             if name == "keys":
-                return ("list", [("c", x) for x in d if not (isinstance(x, tuple) and x and x[0] == "dyn")], True) if opened else ("list", [("c", x) for x in d])
+                ks = []
+                dyn = False
+                for x, vv in d.items():
+                    if isinstance(x, tuple) and x and x[0] == "dyn":
+                        dyn = True
+                        if vv[0] == "list" and len(vv[1]) == 2:
+                            ks.append(vv[1][0])
+                    else:
+                        ks.append(("c", x))
+                return ("list", ks, True) if (opened or dyn) else ("list", ks)
             if name == "values":
                 return ("list", list(d.values()), True) if opened else ("list", list(d.values()))
             if name == "get" and args:
@@ -1306,6 +1403,12 @@ class Interp:
             if name == "copy":
                 return ("list", list(l))
             return ("fn", "list." + name, [recv] + list(args))
+        if k == "atom":
+            rv = self.concrete(recv)
+            if rv[0] == "c" and rv[1] is None:
+                raise _Raise(("ext", "AttributeError", []), "AttributeError: 'NoneType' object has no attribute %r" % name)
+        if k == "c" and recv[1] is None:
+            raise _Raise(("ext", "AttributeError", []), "AttributeError: 'NoneType' object has no attribute %r" % name)
         if k in ("c", "atom"):
             rc = recv
             if k == "c" and all(a[0] == "c" for a in args) and not kwargs:
@@ -1370,7 +1473,7 @@ def show(v, depth=0):
 
 
 # ----------------------------------------------------------------------------- driver
-def enumerate_cells(run, domains=None, max_cells=20000, max_rounds=6):
+def enumerate_cells(run, domains=None, max_cells=20000, max_rounds=80):
     """run(cell, domains) -> result (raises NeedAtom / DomainGrew).  Returns [(cell, result)].
     The cells partition the input space: every NeedAtom splits the cell over the atom's whole domain."""
     domains = domains if domains is not None else {}
